@@ -405,7 +405,7 @@ def judge(c, r, src=None):
     new = c.violation(kind, what, rep)
     if new and os.environ.get("C10_DEBUG"):
         print("DBG", json.dumps({k: v for k, v in rep.items() if k != "text"})[:500], file=sys.stderr)
-    if new and kind == "crash" and r.get("text") and not r.get("raw_hex") and not os.environ.get("C10_NOSHRINK") \
+    if new and kind == "crash" and r.get("text") and len(r["text"]) > 200 and not r.get("raw_hex") and not os.environ.get("C10_NOSHRINK") \
             and not getattr(c, "_shrunk", {}).get(signature(r)):
         c._shrunk = getattr(c, "_shrunk", {})
         c._shrunk[signature(r)] = True
@@ -508,7 +508,8 @@ def scenic_layer(c, quick, only=None):
     comp = S.compositions()
     if quick:
         # quick: every Scenic x anything pair among operators; Python-only children in specifier / statement positions rotate with the seed
-        comp = [j for i, j in enumerate(comp) if not (j["kind"] in ("spec", "stmt") and j["py_child"] and (i + c.seed) % 3)]
+        # (Scenic children in those positions: every other one, also rotating; the thorough tier runs all of them)
+        comp = [j for i, j in enumerate(comp) if j["kind"] == "op" or not ((i + c.seed) % (3 if j["py_child"] else 2))]
     comp += S.temporal_compositions()
     jobs += comp
     c.cov["scenic_sentences"] = dict(rules=len({s_["rule"] for s_ in sents}), alternatives=len({(s_["rule"], s_["alt"]) for s_ in sents}), sentences=len(sents),
